@@ -18,7 +18,7 @@ vars == <<grp, seen, stored, sorted>>
 
 \* the relations, tabulated once for all things of all groups
 AllThings == UNION Groups
-ObsT == [x \in AllThings |-> [y \in AllThings |-> RefObs(HashMode, x, y)]]
+ObsT == TLCEval([x \in AllThings |-> TLCEval([y \in AllThings |-> RefObs(HashMode, x, y)])])
 Eq(x, y)     == ObsT[x][y].eq
 Lt(x, y)     == ObsT[x][y].lt
 HashEq(x, y) == ObsT[x][y].heq
